@@ -11,8 +11,11 @@ GENERATED = ["WriterGen.v"]
 RULE = ("header suites: every code point of the tier's set in each of the positions (status line, name, value, "
         "reason, method) at start/middle/end of a carrier string, plus random strings from weighted code-point "
         "classes; writer suites: random op sequences over write_headers/send_headers/write/write_eof/set_eof/"
-        "enable_chunking/length.  Non-trivial = the message was accepted and bytes were emitted; distinct by "
-        "hash of (input, emitted bytes).")
+        "enable_chunking/length; payload_sizes: random payload objects of every class in aiohttp/payload.py, nested "
+        "MultipartWriter and FormData (sizes 0, 1, around 2**16, partially read files) written to a recording writer, "
+        "and random Response/StreamResponse/FileResponse cases (bytes/str/payload/file bodies, HEAD, 204/304, ranges, "
+        "compression) sent through a real in-process server connection.  Non-trivial = the message was accepted and "
+        "bytes were emitted; distinct by hash of (input, emitted bytes).")
 TRUSTED = [
     "translator/gen_writer.py (regex class -> N->bool; ast shape checks of _safe_header, _py_serialize_headers, _set_status)",
     "extraction: ExtrOcamlBasic only; ocaml/common/conv.ml + ocaml/C04/driver.ml (decimal/hex I/O)",
@@ -21,6 +24,8 @@ TRUSTED = [
     "accelerator _http_writer is out of scope (AIOHTTP_NO_EXTENSIONS=1)",
 ]
 ASSUMPTIONS = [
+    "payload_sizes is an implementation-only oracle (no model): size/Content-Length truthfulness of payloads and "
+    "responses is searched, not proved; the Coq theorems cover StreamWriter framing only.",
     "The Python writer is used (AIOHTTP_NO_EXTENSIONS=1).",
     "Model/implementation agreement is validated on the generated cases only.",
 ]
@@ -395,6 +400,791 @@ def suite_writer(ctx, exe):
     ctx.close_suite("stream_writer", ran)
 
 
+# ---- payload sizes: declared size / Content-Length equals the bytes actually written ----------
+#
+# Implementation-only oracle (no model): for every payload class, `payload.size`, when not None, must be
+# the number of bytes `payload.write(writer)` hands to the writer; a response sent through a real server
+# connection must carry a Content-Length equal to the body bytes that reach the transport.
+# Cases are JSON specs (seeds + sizes), so a violation replays from its case alone.
+
+PS_SIZES = [0, 1, 2, 3, 5, 17, 255, 1000, 2 ** 16 - 1, 2 ** 16, 2 ** 16 + 1]
+PS_BIG = [2 ** 16 - 1, 2 ** 16, 2 ** 16 + 1, 2 ** 17 + 1]
+_ENC_ALPHA = {None: ("ascii", "latin", "bmp"), "utf-8": ("ascii", "latin", "bmp"), "utf-16": ("ascii", "bmp"),
+              "utf-32": ("ascii", "bmp"), "latin-1": ("ascii", "latin"), "ascii": ("ascii",), "cp1251": ("ascii",)}
+
+
+def ps_bytes(d):
+    import random
+    if "hex" in d:
+        return bytes.fromhex(d["hex"])
+    return random.Random(d["seed"]).randbytes(d["n"])
+
+
+def ps_text(t):
+    import random
+    if "text" in t:
+        return t["text"]
+    r = random.Random(t["seed"])
+    n, alpha = t["n"], t["alpha"]
+    if alpha == "ascii":
+        return "".join(r.choice("abcXYZ 019\n=&+%/;\t") for _ in range(n))
+    if alpha == "crlf":
+        return "".join(r.choice(["a", "b", " ", "\r\n", "\r\n", "\n", "\r", "z"]) for _ in range(n))
+    if alpha == "latin":
+        return "".join(chr(r.choice([65, 97, 10, 32, 0xE9, 0xFF, 0xA0, 0x80, 126, 0xDF])) for _ in range(n))
+    return "".join(chr(r.choice([65, 10, 0xE9, 0x7FF, 0x800, 0x20AC, 0xFFFD, 0x10000, 0x1F600, 0x10FFFF, 97, 32])) for _ in range(n))
+
+
+def ps_size(rng, big_ok=True):
+    if big_ok and rng.random() < 0.25:
+        return rng.choice(PS_BIG)
+    return rng.choice(PS_SIZES) if rng.random() < 0.7 else rng.randint(0, 300)
+
+
+def ps_dspec(rng, big_ok=True):
+    return {"seed": rng.randrange(2 ** 32), "n": ps_size(rng, big_ok)}
+
+
+def ps_tspec(rng, alphas, big_ok=True):
+    return {"seed": rng.randrange(2 ** 32), "n": ps_size(rng, big_ok), "alpha": rng.choice(list(alphas))}
+
+
+def ps_pre(rng, n):
+    return rng.choice([0, 0, 0, 1, n // 2, max(n - 1, 0), n, n])
+
+
+def ps_gen_leaf(rng, big_ok=True, kinds=None):
+    k = rng.choice(kinds or ["bytes", "str", "bytesio", "stringio", "file", "file", "textfile", "aiter"])
+    if k == "bytes":
+        return {"k": "bytes", "wrap": rng.choice(["bytes", "bytearray", "memoryview"]), "d": ps_dspec(rng, big_ok)}
+    if k == "str":
+        enc = rng.choice(list(_ENC_ALPHA))
+        return {"k": "str", "enc": enc, "t": ps_tspec(rng, _ENC_ALPHA[enc], big_ok)}
+    if k == "bytesio":
+        d = ps_dspec(rng, big_ok)
+        return {"k": "bytesio", "d": d, "pre": ps_pre(rng, d["n"])}
+    if k == "stringio":
+        enc = rng.choice([None, "utf-8", "utf-16", "latin-1"])
+        t = ps_tspec(rng, _ENC_ALPHA[enc], big_ok)
+        return {"k": "stringio", "enc": enc, "t": t, "pre": ps_pre(rng, t["n"])}
+    if k == "file":
+        d = ps_dspec(rng, big_ok)
+        return {"k": "file", "mode": rng.choice(["buffered", "buffered", "raw", "membuf"]),
+                "cls": rng.choice(["auto", "auto", "IOBasePayload", "BufferedReaderPayload"]), "d": d, "pre": ps_pre(rng, d["n"])}
+    if k == "textfile":
+        r = rng.random()
+        if r < 0.7:        # configurations in which the on-disk size IS the encoded size
+            fenc = rng.choice(["utf-8", "utf-8", "latin-1", "ascii"])
+            penc = fenc if fenc != "utf-8" or rng.random() < 0.5 else None
+            alphas = _ENC_ALPHA[fenc]
+            newline = rng.choice([None, "", "\n"])
+        else:              # re-encoding / newline translation (see the known finding)
+            fenc = rng.choice(["utf-8", "latin-1", "utf-16", "utf-8-sig"])
+            penc = rng.choice([None, "utf-8", "utf-16", "latin-1"])
+            alphas = ("ascii", "crlf") if "latin-1" in (fenc, penc) else ("ascii", "crlf", "bmp")
+            newline = rng.choice([None, None, "", "\n"])
+        t = ps_tspec(rng, alphas, big_ok)
+        return {"k": "textfile", "fenc": fenc, "penc": penc, "newline": newline, "t": t, "pre": ps_pre(rng, t["n"]) if rng.random() < 0.4 else 0}
+    return {"k": "aiter", "chunks": [ps_dspec(rng, False) for _ in range(rng.randint(0, 4))]}
+
+
+def ps_gen_multipart(rng, depth=0, form=False):
+    parts = []
+    for _ in range(rng.randint(0, 4)):
+        if depth < 2 and rng.random() < 0.25 and not form:
+            p = ps_gen_multipart(rng, depth + 1)
+        else:
+            p = ps_gen_leaf(rng, big_ok=rng.random() < 0.15,
+                            kinds=["bytes", "str", "bytesio", "stringio", "file", "textfile", "aiter"] if not form else ["bytes", "str", "bytesio", "file"])
+        ce = cte = None
+        if not form and rng.random() < 0.3:
+            ce = rng.choice([None, "gzip", "deflate", "identity"])
+            cte = rng.choice([None, "base64", "quoted-printable", "binary"])
+        parts.append({"p": p, "ce": ce, "cte": cte})
+    return {"k": "multipart", "subtype": "form-data" if form else rng.choice(["mixed", "related", "alternative"]),
+            "boundary": rng.choice([None, "b", "x" * 70, "a b", "q\"uote", ":simple-1"]), "parts": parts}
+
+
+def ps_gen_form(rng):
+    multipart = rng.random() < 0.6
+    fields = []
+    for i in range(rng.randint(0 if not multipart else 1, 4)):
+        # (a non-ASCII name in a multipart form trips an assert inside MultipartWriter.write: not a framing matter)
+        name = rng.choice(["a", "b c", "x=y&z", "q\"q"] + ([] if multipart else ["né"]))
+        if multipart and rng.random() < 0.7:
+            v = ps_gen_leaf(rng, big_ok=rng.random() < 0.15, kinds=["bytes", "bytesio", "file", "str"])
+            if v["k"] == "bytes":
+                v["wrap"] = "bytes"
+            if v["k"] == "str":
+                v["enc"] = None
+            fields.append({"name": name, "v": v, "filename": rng.choice([None, "f.bin", "né \".txt"]),
+                           "content_type": rng.choice([None, "application/x-thing", "text/plain"])})
+        else:
+            fields.append({"name": name, "v": {"k": "str", "enc": None, "t": ps_tspec(rng, ("ascii", "latin", "bmp"), False)},
+                           "filename": None, "content_type": None})
+    charset = None if multipart else rng.choice([None, None, "utf-8", "latin-1"])
+    if charset == "latin-1":
+        for f in fields:
+            if f["v"]["t"]["alpha"] == "bmp":
+                f["v"]["t"]["alpha"] = "latin"
+    if multipart and not any(f["v"]["k"] != "str" or f["filename"] or f["content_type"] for f in fields):
+        fields.append({"name": "file", "v": {"k": "bytes", "wrap": "bytes", "d": ps_dspec(rng, False)}, "filename": None, "content_type": None})
+    return {"k": "form", "charset": charset,
+            "quote_fields": rng.random() < 0.8, "boundary": rng.choice([None, "fb"]), "fields": fields}
+
+
+def ps_find(spec, kind):
+    """All sub-specs of a kind inside a (nested) payload spec."""
+    out = []
+    if not isinstance(spec, dict):
+        return out
+    if spec.get("k") == kind:
+        out.append(spec)
+    for part in spec.get("parts", []):
+        out += ps_find(part["p"], kind)
+    for f in spec.get("fields", []):
+        out += ps_find(f["v"], kind)
+    return out
+
+
+def ps_textfile_size_is_exact(spec):
+    """Text-mode files for which bytes-on-disk == bytes the payload emits: same single-byte-order-mark-free
+    encoding on both sides and no newline translation."""
+    penc = spec["penc"] or "utf-8"
+    if spec["fenc"] != penc or penc not in ("utf-8", "latin-1", "ascii"):
+        return False
+    # CRs: newline=None translates them away; newline="" keeps them but still runs the incremental newline
+    # decoder, so after a partial read tell() is a cookie with decoder flags, not a byte offset
+    return "\r" not in ps_text(spec["t"]) or spec["newline"] == "\n" or (spec["newline"] == "" and spec["pre"] == 0)
+
+
+def _ps_inline_executor():
+    import concurrent.futures
+
+    class Inline(concurrent.futures.ThreadPoolExecutor):
+        def submit(self, fn, *a, **k):  # type: ignore[override]
+            f = concurrent.futures.Future()
+            try:
+                f.set_result(fn(*a, **k))
+            except BaseException as e:  # noqa
+                f.set_exception(e)
+            return f
+    return Inline(max_workers=1)
+
+
+class PsBuilder:
+    """Builds real payload objects from specs inside a temp dir; remembers what must be closed."""
+
+    def __init__(self, tmp):
+        self.tmp, self.n, self.open = tmp, 0, []
+
+    def path(self, data: bytes):
+        import os
+        self.n += 1
+        p = os.path.join(self.tmp, f"f{self.n}.dat")
+        with open(p, "wb") as f:
+            f.write(data)
+        return p
+
+    def close(self):
+        for f in self.open:
+            try:
+                f.close()
+            except Exception:  # noqa
+                pass
+        self.open = []
+
+    def value(self, spec, raw=False):
+        """(python value accepted by get_payload / FormData / Response(body=), expected bytes or None);
+        raw: the value is handed over as it is, so the default encoding (utf-8) applies"""
+        import io
+        k = spec["k"]
+        if raw and k in ("str", "stringio"):
+            spec = dict(spec, enc=None)
+        if k == "bytes":
+            b = ps_bytes(spec["d"])
+            return {"bytes": b, "bytearray": bytearray(b), "memoryview": memoryview(b)}[spec["wrap"]], b
+        if k == "str":
+            t = ps_text(spec["t"])
+            return t, t.encode(spec["enc"] or "utf-8")
+        if k == "bytesio":
+            b = ps_bytes(spec["d"])
+            f = io.BytesIO(b)
+            f.read(spec["pre"])
+            return f, b[spec["pre"]:]
+        if k == "stringio":
+            t = ps_text(spec["t"])
+            f = io.StringIO(t)
+            f.read(spec["pre"])
+            return f, t[spec["pre"]:].encode(spec["enc"] or "utf-8")
+        if k == "file":
+            b = ps_bytes(spec["d"])
+            if spec["mode"] == "membuf":
+                f = io.BufferedReader(io.BytesIO(b))
+            else:
+                f = open(self.path(b), "rb", **({"buffering": 0} if spec["mode"] == "raw" else {}))
+            self.open.append(f)
+            f.read(spec["pre"])
+            return f, b[spec["pre"]:]
+        if k == "textfile":
+            t = ps_text(spec["t"])
+            f = open(self.path(t.encode(spec["fenc"])), "r", encoding=spec["fenc"], newline=spec["newline"])
+            self.open.append(f)
+            f.read(spec["pre"])
+            return f, None
+        if k == "aiter":
+            chunks = [ps_bytes(d) for d in spec["chunks"]]
+
+            async def gen():
+                for c in chunks:
+                    yield c
+            return gen(), b"".join(chunks)
+        raise ValueError(k)
+
+    def payload(self, spec):
+        """(Payload, expected bytes or None)"""
+        from aiohttp import payload as pl, multipart, FormData
+        k = spec["k"]
+        if k == "multipart":
+            mp = multipart.MultipartWriter(spec["subtype"], boundary=spec["boundary"])
+            for part in spec["parts"]:
+                sub, _ = self.payload(part["p"])
+                hs = {}
+                if part["ce"]:
+                    hs["Content-Encoding"] = part["ce"]
+                if part["cte"]:
+                    hs["Content-Transfer-Encoding"] = part["cte"]
+                if spec["subtype"] == "form-data":
+                    sub.set_content_disposition("form-data", name="n%d" % len(mp))
+                mp.append(sub, hs)
+            return mp, None
+        if k == "form":
+            fd = FormData(quote_fields=spec["quote_fields"], charset=spec["charset"], boundary=spec["boundary"])
+            for f in spec["fields"]:
+                v, _ = self.value(f["v"])
+                fd.add_field(f["name"], v, filename=f["filename"], content_type=f["content_type"])
+            return fd(), None
+        v, exp = self.value(spec)
+        if k == "str":
+            return pl.StringPayload(v, encoding=spec["enc"]), exp
+        if k == "stringio":
+            return pl.StringIOPayload(v, encoding=spec["enc"]), exp
+        if k == "textfile":
+            return pl.TextIOPayload(v, encoding=spec["penc"]), exp
+        if k == "file" and spec["cls"] != "auto":
+            return getattr(pl, spec["cls"])(v), exp
+        if k == "aiter":
+            return pl.AsyncIterablePayload(v), exp
+        return pl.get_payload(v), exp
+
+
+def _ps_recorder():
+    from aiohttp.abc import AbstractStreamWriter
+
+    class Rec(AbstractStreamWriter):
+        """Counts what a payload hands to its writer."""
+        length = None
+
+        def __init__(self):
+            self.buf = bytearray()
+
+        async def write(self, chunk):
+            self.buf += bytes(chunk)
+
+        async def write_eof(self, chunk=b""):
+            self.buf += bytes(chunk)
+
+        async def drain(self):
+            pass
+
+        def enable_compression(self, *a, **k):
+            raise AssertionError("payload asked its writer to compress")
+
+        def enable_chunking(self):
+            raise AssertionError("payload asked its writer to chunk")
+
+        async def write_headers(self, *a, **k):
+            raise AssertionError("payload wrote headers")
+
+        def send_headers(self):
+            pass
+    return Rec
+
+
+def ps_eval_payload(loop, tmp, spec, wl):
+    """Run one payload case on the implementation.  Returns (observable, [violations])."""
+    Rec = _ps_recorder()
+    bld = PsBuilder(tmp)
+    bad = []
+
+    async def go():
+        try:
+            p, exp = bld.payload(spec)
+        except (ValueError, TypeError, LookupError, RuntimeError) as e:     # refused before anything is written
+            return "refused:" + type(e).__name__, None, 0, False
+        cls = type(p).__name__
+        size0 = p.size
+        w = Rec()
+        await p.write(w)
+        out = bytes(w.buf)
+        if size0 is not None and size0 != len(out):
+            bad.append(("size", f"{cls}.size == {size0} but write() emitted {len(out)} bytes"))
+        if exp is not None and out != exp:
+            bad.append(("content", f"{cls}.write() emitted {len(out)} bytes that are not the payload's content ({len(exp)} bytes)"))
+        reusable = not p.consumed
+        if reusable:
+            # the same object is written again after a 307/308 redirect: size and bytes must not drift
+            size1 = p.size
+            w2 = Rec()
+            await p.write(w2)
+            if size1 != size0:
+                bad.append(("size-reuse", f"{cls}.size changed from {size0} to {size1} after a write"))
+            if bytes(w2.buf) != out:
+                bad.append(("reuse", f"{cls}: second write() emitted {len(w2.buf)} bytes, first {len(out)}"))
+            if wl is not None and cls != "MultipartWriter":     # MultipartWriter leaves the cut to StreamWriter.length
+                w3 = Rec()
+                await p.write_with_length(w3, wl)
+                if bytes(w3.buf) != out[:wl]:
+                    bad.append(("with-length", f"{cls}.write_with_length(n={wl}) emitted {len(w3.buf)} bytes; the first min(n, size) = {len(out[:wl])} expected"))
+        await p.close()
+        return cls, size0, len(out), reusable
+    try:
+        obs = loop.run_until_complete(go())
+    finally:
+        bld.close()
+    return obs, bad
+
+
+def ps_gen_payload_case(rng):
+    r = rng.random()
+    if r < 0.62:
+        spec = ps_gen_leaf(rng)
+    elif r < 0.85:
+        spec = ps_gen_multipart(rng)
+    else:
+        spec = ps_gen_form(rng)
+    wl = rng.choice([None, 0, 1, 7, 2 ** 16, 2 ** 16 + 1, 10 ** 6])
+    return {"suite": "payload_sizes", "part": "payload", "spec": spec, "wl": wl}
+
+
+# -- responses through a real server connection
+
+class PsServer:
+    def __init__(self, loop, tmp):
+        import logging
+        import aiohttp.web_fileresponse as wf
+        from aiohttp import web
+        from harness.common.transport import start_server
+        self.loop, self.tmp = loop, tmp
+        self.case = None
+        self.bld = PsBuilder(tmp)
+        self.expected = None
+        self.handler_error = None
+        self._old_nosendfile = wf.NOSENDFILE
+        wf.NOSENDFILE = True     # harness-side: MemTransport has no socket; aiohttp's own copy loop is used
+        self._levels = {n: logging.getLogger(n).level for n in ("aiohttp.server", "aiohttp.web", "aiohttp.access")}
+        for n in self._levels:
+            logging.getLogger(n).setLevel(logging.CRITICAL + 1)
+
+        async def handler(request):
+            return await self.respond(request)
+
+        async def go():
+            app = web.Application()
+            app.router.add_route("*", "/{tail:.*}", handler)
+            self.runner, self.connect = await start_server(app, loop)
+        loop.run_until_complete(go())
+
+    async def respond(self, request):
+        import zlib  # noqa
+        from aiohttp import web
+        c = self.case["resp"]
+        self.expected = None
+        r = c["r"]
+        if r == "resp":
+            b = c["body"]
+            kw = {"status": c["status"]}
+            if b["b"] == "bytes":
+                kw["body"] = ps_bytes(b["d"])
+                self.expected = kw["body"]
+            elif b["b"] == "text":
+                kw["text"] = ps_text(b["t"])
+                kw["charset"] = b["charset"]
+                self.expected = kw["text"].encode(b["charset"] or "utf-8")
+            elif b["b"] == "payload":
+                p, exp = self.bld.payload(b["p"])
+                kw["body"], self.expected = p, exp
+            elif b["b"] == "value":
+                v, exp = self.bld.value(b["p"], raw=True)
+                kw["body"], self.expected = v, exp
+            resp = web.Response(**kw)
+            if c.get("chunked"):
+                resp.enable_chunked_encoding()
+            if c.get("compress"):
+                resp.enable_compression()
+            return resp
+        if r == "stream":
+            chunks = [ps_bytes(d) for d in c["writes"]]
+            self.expected = b"".join(chunks)
+            resp = web.StreamResponse(status=c["status"])
+            if c["mode"] == "chunked":
+                resp.enable_chunked_encoding()
+            elif c["mode"] == "length":
+                resp.content_length = len(self.expected)
+            if c.get("compress"):
+                resp.enable_compression()
+            await resp.prepare(request)
+            for ch in chunks:
+                await resp.write(ch)
+            await resp.write_eof()
+            return resp
+        if r == "file":
+            data = ps_bytes(c["d"])
+            self.filedata = data
+            path = self.bld.path(data)
+            return web.FileResponse(path, chunk_size=c["chunk_size"], status=c["status"])
+        raise ValueError(r)
+
+    def request(self, case):
+        """Send the case's request; returns (raw bytes written by the server, transport closed?)."""
+        import asyncio as aio
+        self.case = case
+        q = case["req"]
+        lines = [f"{q['method']} /x HTTP/{q['version']}", "Host: h"] + [f"{k}: {v}" for k, v in q["headers"]]
+        raw = ("\r\n".join(lines) + "\r\n\r\n").encode("latin-1")
+
+        async def go():
+            proto, tr = self.connect()
+            proto.data_received(raw)
+            idle = 0
+            last = -1
+            for _ in range(400000):
+                await aio.sleep(0)
+                if tr.closed:
+                    break
+                if len(tr.buf) == last and proto._request_handler is not None and getattr(proto, "_waiter", None) is not None:
+                    idle += 1
+                    if idle > 5:
+                        break     # the handler is parked waiting for the next request: the response is complete
+                else:
+                    idle = 0
+                last = len(tr.buf)
+            closed = tr.closed
+            out = bytes(tr.buf)
+            if not tr.closed:
+                tr.peer_close()
+                for _ in range(10):
+                    await aio.sleep(0)
+            return out, closed
+        try:
+            return self.loop.run_until_complete(go())
+        finally:
+            self.bld.close()
+
+    def close(self):
+        import logging
+        import aiohttp.web_fileresponse as wf
+        wf.NOSENDFILE = self._old_nosendfile
+        try:
+            self.loop.run_until_complete(self.runner.cleanup())
+        except Exception:  # noqa
+            pass
+        for n, lv in self._levels.items():
+            logging.getLogger(n).setLevel(lv)
+
+
+def ps_split_response(out: bytes):
+    head, sep, rest = out.partition(b"\r\n\r\n")
+    if not sep:
+        return None
+    lines = head.split(b"\r\n")
+    try:
+        status = int(lines[0].split()[1])
+    except Exception:  # noqa
+        return None
+    hs = []
+    for ln in lines[1:]:
+        k, _, v = ln.partition(b":")
+        hs.append((k.decode("latin-1").lower(), v.strip().decode("latin-1")))
+    return status, hs, rest
+
+
+def ps_check_response(case, out, closed, expected, filedata=None):
+    """The property predicate on what the server wrote.  Returns a list of failures."""
+    import zlib
+    bad = []
+    if not out and closed:
+        return []            # refused before any byte was written (e.g. chunked asked for HTTP/1.0): C05's subject
+    r = ps_split_response(out)
+    if r is None:
+        return [("no-response", f"no complete response head in {out[:80]!r}")]
+    status, hs, rest = r
+    q = case["req"]
+    cls = [v for k, v in hs if k == "content-length"]
+    te = [v.lower() for k, v in hs if k == "transfer-encoding"]
+    ce = [v.lower() for k, v in hs if k == "content-encoding"]
+    if len(cls) > 1:
+        bad.append(("content-length", f"{len(cls)} Content-Length fields"))
+    if cls and not cls[0].isdigit():
+        return bad + [("content-length", f"Content-Length {cls[0]!r} is not a number")]
+    cl = int(cls[0]) if cls else None
+    if te and cls:
+        bad.append(("content-length", "both Content-Length and Transfer-Encoding sent"))
+    empty = q["method"] == "HEAD" or status in (204, 304) or status < 200
+    if empty:
+        if rest:
+            bad.append(("content-length", f"{len(rest)} body bytes written for {q['method']} / status {status}, which has no body"))
+        if status == 204 or status < 200:
+            if cls or te:
+                bad.append(("content-length", f"status {status} sent with Content-Length/Transfer-Encoding"))
+        return bad
+    if te:
+        if te != ["chunked"]:
+            return bad + [("content-length", f"Transfer-Encoding {te}")]
+        d = dechunk_ref(rest)
+        if d is None or d[1] != b"":
+            return bad + [("content-length", f"chunked body does not decode / has trailing bytes: {rest[:60]!r}")]
+        body = d[0]
+    elif cl is not None:
+        if cl != len(rest):
+            return bad + [("content-length", f"Content-Length: {cl} but {len(rest)} body bytes were written (status {status})")]
+        body = rest
+    else:
+        if not closed:
+            bad.append(("content-length", "no Content-Length, not chunked, and the connection stays open: the body has no end"))
+        body = rest
+    if status >= 400 and case["resp"].get("status", 200) < 400:
+        return bad           # aiohttp's own error page (handler refused the combination): framing checked above
+    if ce:
+        try:
+            body = zlib.decompress(body, 16 + zlib.MAX_WBITS if ce[0] == "gzip" else zlib.MAX_WBITS)
+        except zlib.error:
+            try:
+                body = zlib.decompress(body, -zlib.MAX_WBITS)
+            except zlib.error:
+                return bad + [("content", f"Content-Encoding {ce[0]} body does not decompress")]
+    if case["resp"]["r"] == "file":
+        cr = [v for k, v in hs if k == "content-range"]
+        if status == 206:
+            try:
+                unit, _, spec = cr[0].partition(" ")
+                rng_, _, total = spec.partition("/")
+                a, _, b = rng_.partition("-")
+                a, b, total = int(a), int(b), int(total)
+            except Exception:  # noqa
+                return bad + [("content-range", f"206 with Content-Range {cr!r}")]
+            if b - a + 1 != len(body) or total != len(filedata) or body != filedata[a:b + 1]:
+                bad.append(("content-range", f"Content-Range {cr[0]} does not describe the {len(body)} bytes sent (file has {len(filedata)})"))
+        elif status == 200 and body != filedata:
+            bad.append(("content", f"file response body differs from the file ({len(body)} vs {len(filedata)} bytes)"))
+    elif expected is not None and body != expected:
+        bad.append(("content", f"body ({len(body)} bytes) is not the response's content ({len(expected)} bytes)"))
+    return bad
+
+
+def ps_gen_server_case(rng):
+    method = rng.choice(["GET", "GET", "GET", "HEAD", "POST"])
+    version = rng.choice(["1.1", "1.1", "1.1", "1.0"])
+    headers = []
+    if rng.random() < 0.3:
+        headers.append(("Accept-Encoding", rng.choice(["gzip", "deflate", "gzip, deflate"])))
+    if rng.random() < 0.25:
+        headers.append(("Connection", rng.choice(["close", "keep-alive"]) if version == "1.1" else "close"))
+    r = rng.random()
+    if r < 0.55:
+        status = rng.choice([200, 200, 200, 201, 204, 304, 404, 500])
+        b = rng.random()
+        if b < 0.2:
+            body = {"b": "bytes", "d": ps_dspec(rng)}
+        elif b < 0.4:
+            cs = rng.choice([None, "utf-8", "utf-16", "latin-1"])
+            body = {"b": "text", "t": ps_tspec(rng, _ENC_ALPHA[cs]), "charset": cs}
+        elif b < 0.5:
+            body = {"b": "none"}
+        elif b < 0.75:
+            body = {"b": "payload", "p": rng.choice([ps_gen_leaf, ps_gen_leaf, ps_gen_multipart, ps_gen_form])(rng)}
+        else:
+            body = {"b": "value", "p": ps_gen_leaf(rng, kinds=["bytes", "bytesio", "stringio", "file", "textfile", "aiter"])}
+        resp = {"r": "resp", "status": status, "body": body, "chunked": rng.random() < 0.12, "compress": rng.random() < 0.2}
+    elif r < 0.75:
+        resp = {"r": "stream", "status": rng.choice([200, 200, 206, 204, 304]),
+                "writes": [ps_dspec(rng, rng.random() < 0.2) for _ in range(rng.randint(0, 4))],
+                "mode": rng.choice(["auto", "chunked", "length"]), "compress": rng.random() < 0.15}
+    else:
+        d = ps_dspec(rng)
+        n = d["n"]
+        if rng.random() < 0.75:
+            a, b = sorted((rng.randint(0, n + 2), rng.randint(0, n + 2)))
+            headers.append(("Range", rng.choice([f"bytes={a}-{b}", f"bytes={a}-", f"bytes=-{max(b, 1)}", f"bytes={b}-{a}", "bytes=0-0",
+                                                   f"bytes={n}-", f"bytes=-{n + 5}", "bytes=-1"])))
+        if rng.random() < 0.15:
+            headers.append(("If-Modified-Since", "Fri, 01 Jan 2100 00:00:00 GMT"))
+        resp = {"r": "file", "status": 200, "d": d, "chunk_size": rng.choice([1, 7, 4096, 2 ** 16, 2 ** 18] if n <= 1000 else [4096, 2 ** 16, 2 ** 18])}
+    return {"suite": "payload_sizes", "part": "server", "req": {"method": method, "version": version, "headers": headers}, "resp": resp}
+
+
+def ps_run_server_case(srv, case):
+    out, closed = srv.request(case)
+    bad = ps_check_response(case, out, closed, srv.expected, getattr(srv, "filedata", None))
+    return (len(out), closed), bad
+
+
+def ps_case_textfiles(case):
+    if case.get("part") == "payload":
+        return ps_find(case["spec"], "textfile")
+    b = case.get("resp", {}).get("body") or {}
+    return ps_find(b.get("p"), "textfile") if b.get("b") in ("payload", "value") else []
+
+
+def sig_textio_size(case, params):
+    """TextIOPayload reports the ON-DISK byte count of a text-mode file as its size, but emits the decoded
+    text re-encoded: the two differ whenever the file's encoding differs from the payload's, a BOM is
+    involved, or universal-newline translation drops CRs (after a partial read tell() is an opaque cookie and the
+    computed size can even be a huge negative number: OverflowError)."""
+    if case.get("suite") != "payload_sizes" or case.get("check") not in ("size", "content-length", "with-length", "content", "exception"):
+        return False
+    tfs = ps_case_textfiles(case)
+    return bool(tfs) and any(not ps_textfile_size_is_exact(t) for t in tfs)
+
+
+def _ps_n(d):
+    return d["n"] if "n" in d else len(ps_bytes(d))
+
+
+SIGNATURES["textio_size_is_disk_size"] = sig_textio_size
+
+
+def _ps_bodyless(case):
+    return case.get("suite") == "payload_sizes" and case.get("part") == "server" and case.get("check") == "content-length" and \
+        (case["req"]["method"] == "HEAD" or case["resp"].get("status") in (204, 304))
+
+
+def sig_stream_write_bodyless(case, params):
+    """StreamResponse.write() passes data to the transport although the response can have no body
+    (HEAD - also reached through add_get's allow_head -, 204, 304)."""
+    return _ps_bodyless(case) and case["resp"]["r"] == "stream" and sum(_ps_n(d) for d in case["resp"]["writes"]) > 0
+
+
+def sig_compress_flush_bodyless(case, params):
+    """With streaming compression enabled, write_eof() flushes the (empty) compressor stream - 8 or 20
+    bytes - after the head of a response that can have no body."""
+    if not _ps_bodyless(case) or not case["resp"].get("compress"):
+        return False
+    if not any(k.lower() == "accept-encoding" for k, _ in case["req"]["headers"]):
+        return False
+    r = case["resp"]
+    if r["r"] == "stream":
+        return sum(_ps_n(d) for d in r["writes"]) == 0
+    b = r.get("body", {})
+    # Response(body=bytes/bytearray) is compressed as a whole up front; every other body becomes a Payload
+    # (and so does any Response on which chunked encoding was enabled)
+    return r["r"] == "resp" and (bool(r.get("chunked")) or b.get("b") == "payload" or
+                                 (b.get("b") == "value" and (b["p"]["k"] != "bytes" or b["p"]["wrap"] == "memoryview")))
+
+
+def sig_failed_prepare_leaks_compression(case, params):
+    """prepare() enables compression on the connection's StreamWriter and then raises (chunked encoding asked
+    for an HTTP/1.0 request): the 500 page aiohttp sends next goes through the same writer, deflated, with
+    the Content-Length of the plain text and no Content-Encoding."""
+    if case.get("suite") != "payload_sizes" or case.get("part") != "server":
+        return False
+    r = case["resp"]
+    return case["req"]["version"] == "1.0" and r["r"] == "stream" and r["mode"] == "chunked" and bool(r.get("compress")) and \
+        any(k.lower() == "accept-encoding" for k, _ in case["req"]["headers"])
+
+
+SIGNATURES["failed_prepare_leaks_compression"] = sig_failed_prepare_leaks_compression
+SIGNATURES["stream_write_on_bodyless_response"] = sig_stream_write_bodyless
+SIGNATURES["compressor_flush_on_bodyless_response"] = sig_compress_flush_bodyless
+
+
+def ps_with_env(fn):
+    """Run fn(loop, tmp) with a fresh virtual-time loop, inline executor and temp dir."""
+    import shutil
+    import tempfile
+    import warnings
+    from harness.common.loop import VLoop
+    loop = VLoop()
+    asyncio.set_event_loop(loop)
+    loop.set_default_executor(_ps_inline_executor())
+    tmp = tempfile.mkdtemp(prefix="c04-", dir="/tmp")
+    try:
+        with warnings.catch_warnings():
+            warnings.simplefilter("ignore")
+            return fn(loop, tmp)
+    finally:
+        asyncio.set_event_loop(None)
+        loop.close()
+        shutil.rmtree(tmp, ignore_errors=True)
+
+
+def suite_payload_sizes(ctx):
+    rng = ctx.rng
+    n_pay = 600 if ctx.quick else 12000
+    n_srv = 450 if ctx.quick else 8000
+
+    import glob
+    import os
+    corpus = []
+    for f in sorted(glob.glob(os.path.join(fw.VERIF, "corpus", PROP, "*.json"))):
+        c = json.load(open(f)).get("case", {})
+        if c.get("suite") == "payload_sizes":
+            corpus.append({k: v for k, v in c.items() if k != "check"})
+
+    def body(loop, tmp):
+        ran = 0
+        last = None
+        pay_cases = [c for c in corpus if c["part"] == "payload"] + [ps_gen_payload_case(rng) for _ in range(n_pay)]
+        srv_cases = [c for c in corpus if c["part"] == "server"] + [ps_gen_server_case(rng) for _ in range(n_srv)]
+        for case in pay_cases:
+            try:
+                obs, bad = ps_eval_payload(loop, tmp, case["spec"], case["wl"])
+            except Exception as e:  # noqa
+                ctx.violation(dict(case, check="exception"), f"payload raised {e!r}")
+                continue
+            ran += 1
+            last = case
+            ctx.case(("payload", json.dumps(case["spec"], sort_keys=True), obs), nontrivial=obs[2] > 0)
+            ctx.count("payload:" + obs[0])
+            ctx.count("payload-size:" + ("none" if obs[1] is None else "known"))
+            for check, what in bad:
+                ctx.violation(dict(case, check=check), what)
+        srv = PsServer(loop, tmp)
+        try:
+            for case in srv_cases:
+                try:
+                    obs, bad = ps_run_server_case(srv, case)
+                except Exception as e:  # noqa
+                    ctx.violation(dict(case, check="exception"), f"server case raised {e!r}")
+                    continue
+                ran += 1
+                ctx.case(("server", json.dumps(case, sort_keys=True), obs), nontrivial=obs[0] > 0)
+                ctx.count("response:" + case["resp"]["r"] + ":" + case["req"]["method"])
+                for check, what in bad:
+                    ctx.violation(dict(case, check=check), what)
+        finally:
+            srv.close()
+        if last is not None:
+            ctx.sample({"suite": "payload_sizes", "case": last})
+        return ran
+    ran = ps_with_env(body)
+    ctx.close_suite("payload_sizes", ran)
+
+
+def ps_replay(case):
+    def body(loop, tmp):
+        if case.get("part") == "payload":
+            obs, bad = ps_eval_payload(loop, tmp, case["spec"], case.get("wl"))
+        else:
+            srv = PsServer(loop, tmp)
+            try:
+                obs, bad = ps_run_server_case(srv, case)
+            finally:
+                srv.close()
+        return {"observed": list(obs), "failures": [list(b) for b in bad], "violates": bool(bad)}
+    return ps_with_env(body)
+
+
 def run(ctx):
     ok, exe = build_model()
     ctx.oblige("model-runner-build", "correspondence", ok, "" if ok else exe)
@@ -403,9 +1193,12 @@ def run(ctx):
     suite_serialize(ctx, exe)
     suite_response_glue(ctx, exe)
     suite_writer(ctx, exe)
+    suite_payload_sizes(ctx)
 
 
 def replay(ctx, case):
+    if case.get("suite") == "payload_sizes":
+        return ps_replay(case)
     ok, exe = build_model()
     if case.get("suite") == "serialize_headers":
         sl, hs = case["status_line"], [tuple(x) for x in case["headers"]]
